@@ -160,7 +160,7 @@ def run(ctx):
             n >>= 7
         return bytes(reversed(out))
 
-    nbuilt = 400 if ctx.quick else 6000
+    nbuilt = 400 if ctx.quick else 30000
     for _ in range(nbuilt):
         ndoc = rng.choice([1, 1, 2, 3])
         buf, wire, exps, ok = b"", b"", [], True
